@@ -185,24 +185,73 @@ def run_impl(cases, variant="plain", shards=None):
     return _run_sharded([os.path.join(bdir, "vh")], cases, shards, env={"ASAN_OPTIONS": "detect_leaks=0:abort_on_error=1", "UBSAN_OPTIONS": "halt_on_error=1:print_stacktrace=1"})
 
 
+ORACLE_FILE = os.path.join(vlib.CACHE, "oracle.txt")
+
+
+def _answer(q):
+    """answer one crypto-oracle query of the model with the independent python reference"""
+    import refcrypto as R
+    parts = q.split()
+    if parts[0] == "tweak":
+        ok = R.check_tap_tweak(bytes.fromhex(parts[1]), bytes.fromhex(parts[2]), bytes.fromhex(parts[3]), parts[4] == "1")
+        return "1" if ok else "0"
+    if parts[0] == "tweakadd":
+        r = R.xonly_tweak_add(bytes.fromhex(parts[1]), bytes.fromhex(parts[2]))
+        return "none" if r is None else "%s:%d" % (r[0].hex(), r[1])
+    if parts[0] == "ecdsa":      # ecdsa <pubkey> <digest> <der-without-hashtype>
+        return "1" if R.ecdsa_verify(bytes.fromhex(parts[2]), bytes.fromhex(parts[1]), bytes.fromhex(parts[3])) else "0"
+    if parts[0] == "schnorr":    # schnorr <pubkey32> <msg32> <sig64>
+        return "1" if R.schnorr_verify(bytes.fromhex(parts[2]), bytes.fromhex(parts[1]), bytes.fromhex(parts[3])) else "0"
+    raise RuntimeError("unknown oracle query " + q)
+
+
 def run_model(cases, shards=None):
-    return _run_sharded([os.path.join(OCAML, "driver")], cases, shards)
+    """runs the extracted model; crypto-oracle queries it prints (Q lines) are answered by tools/refcrypto.py,
+    appended to the oracle table and the cases that asked are run again until no query is open"""
+    env = {"VERIF_ORACLE": ORACLE_FILE}
+    res, queries, dirty = _run_sharded([os.path.join(OCAML, "driver")], cases, shards, env=env, want_queries=True)
+    byid = None
+    for _ in range(12):
+        if not queries:
+            return res
+        with vlib.Lock("oracle"):
+            with open(ORACLE_FILE, "a") as fh:
+                for q in sorted(queries):
+                    fh.write("%s %s\n" % (q, _answer(q)))
+        if byid is None:
+            byid = {re.search(r"\bid=(\S+)", c).group(1): c for c in cases}
+        again = [byid[i] for i in dirty if i in byid]
+        r2, queries, dirty = _run_sharded([os.path.join(OCAML, "driver")], again, shards, env=env, want_queries=True)
+        res.update(r2)
+    raise RuntimeError("oracle queries did not converge")
 
 
-def _run_sharded(cmd, cases, shards=None, env=None):
+def _run_sharded(cmd, cases, shards=None, env=None, want_queries=False):
     if shards is None:
         shards = min(vlib.NCPU, max(1, len(cases) // 2000))
+    queries = set()
+    dirty = set()
+    def collect(out):
+        pending = False
+        for l in out.split("\n"):
+            if l.startswith("Q "):
+                queries.add(l[2:].strip()); pending = True
+            elif pending and l.startswith("R "):
+                dirty.add(l.split(" ", 2)[1])
+                pending = False
     if shards <= 1:
         out, rc, err = _run_lines(cmd, cases, env)
-        return group_results(out)
+        collect(out)
+        return (group_results(out), queries, dirty) if want_queries else group_results(out)
     import concurrent.futures
     chunks = [cases[i::shards] for i in range(shards)]
     res = collections.OrderedDict()
     with concurrent.futures.ThreadPoolExecutor(shards) as ex:
         for out, rc, err in ex.map(lambda c: _run_lines(cmd, c, env), chunks):
+            collect(out)
             for k, v in group_results(out).items():
                 res[k] = v
-    return res
+    return (res, queries, dirty) if want_queries else res
 
 
 # ------------------------------------------------------------------------------------------ check context
